@@ -106,7 +106,8 @@ bool SoPlexBase<R>::_reapplyPersistentScaling() const
 
 /// checks result of the solving process and solves again without preprocessing if necessary
 template <class R>
-void SoPlexBase<R>::_evaluateSolutionReal(typename SPxSimplifier<R>::Result simplificationStatus)
+void SoPlexBase<R>::_evaluateSolutionReal(typename SPxSimplifier<R>::Result simplificationStatus,
+      volatile bool* interrupt)
 {
    // if the simplifier detected infeasibility or unboundedness we optimize again
    // just to get the proof (primal or dual ray)
@@ -123,7 +124,7 @@ void SoPlexBase<R>::_evaluateSolutionReal(typename SPxSimplifier<R>::Result simp
          SPX_MSG_INFO1(spxout, spxout <<
                        "simplifier detected infeasibility or unboundedness - solve again without simplifying" << std::endl;
                       )
-         _preprocessAndSolveReal(false);
+         _preprocessAndSolveReal(false, interrupt);
       }
       else
       {
@@ -142,7 +143,7 @@ void SoPlexBase<R>::_evaluateSolutionReal(typename SPxSimplifier<R>::Result simp
 
    case SPxSimplifier<R>::VANISHED:
       _status = SPxSolverBase<R>::OPTIMAL;
-      _storeSolutionRealFromPresol();
+      _storeSolutionRealFromPresol(interrupt);
       return;
 
    case SPxSimplifier<R>::OKAY:
@@ -153,14 +154,14 @@ void SoPlexBase<R>::_evaluateSolutionReal(typename SPxSimplifier<R>::Result simp
    switch(_status)
    {
    case SPxSolverBase<R>::OPTIMAL:
-      _storeSolutionReal(!_isRealLPLoaded || _isRealLPScaled);
+      _storeSolutionReal(!_isRealLPLoaded || _isRealLPScaled, interrupt);
 
       // apply polishing on original problem
       if(_applyPolishing)
       {
          int polishing = intParam(SoPlexBase<R>::SOLUTION_POLISHING);
          setIntParam(SoPlexBase<R>::SOLUTION_POLISHING, polishing);
-         _preprocessAndSolveReal(false);
+         _preprocessAndSolveReal(false, interrupt);
       }
 
       break;
@@ -175,11 +176,11 @@ void SoPlexBase<R>::_evaluateSolutionReal(typename SPxSimplifier<R>::Result simp
          SPX_MSG_INFO1(spxout, spxout << " --- loading original problem" << std::endl;)
          _solver.changeObjOffset(realParam(SoPlexBase<R>::OBJ_OFFSET));
          // we cannot do more to remove violations
-         _resolveWithoutPreprocessing(simplificationStatus);
+         _resolveWithoutPreprocessing(simplificationStatus, interrupt);
       }
       else
       {
-         _storeSolutionReal(false);
+         _storeSolutionReal(false, interrupt);
       }
 
       break;
@@ -192,7 +193,7 @@ void SoPlexBase<R>::_evaluateSolutionReal(typename SPxSimplifier<R>::Result simp
          SPX_MSG_INFO1(spxout, spxout <<
                        "encountered singularity - trying to solve again without simplifying" <<
                        std::endl;)
-         _preprocessAndSolveReal(false);
+         _preprocessAndSolveReal(false, interrupt);
          return;
       }
 
@@ -205,7 +206,7 @@ void SoPlexBase<R>::_evaluateSolutionReal(typename SPxSimplifier<R>::Result simp
       if(_solver.shift() > _solver.epsilon())
          _solver.setBasisStatus(SPxBasisBase<R>::REGULAR);
 
-      _storeSolutionReal(true);
+      _storeSolutionReal(true, interrupt);
       break;
 
    case SPxSolverBase<R>::ABORT_CYCLING:
@@ -217,7 +218,7 @@ void SoPlexBase<R>::_evaluateSolutionReal(typename SPxSimplifier<R>::Result simp
          SPX_MSG_INFO1(spxout, spxout << "encountered cycling - trying to solve again without simplifying" <<
                        std::endl;)
          // store and unsimplify sub-optimal solution and basis, may trigger re-solve
-         _storeSolutionReal(true);
+         _storeSolutionReal(true, interrupt);
          return;
       }
 
@@ -234,7 +235,7 @@ void SoPlexBase<R>::_evaluateSolutionReal(typename SPxSimplifier<R>::Result simp
       if(_solver.shift() > _solver.epsilon())
          _solver.setBasisStatus(SPxBasisBase<R>::REGULAR);
 
-      _storeSolutionReal(false);
+      _storeSolutionReal(false, interrupt);
       break;
 
    default:
@@ -359,7 +360,7 @@ void SoPlexBase<R>::_preprocessAndSolveReal(bool applySimplifier, volatile bool*
       _solveRealLPAndRecordStatistics(interrupt);
    }
 
-   _evaluateSolutionReal(simplificationStatus);
+   _evaluateSolutionReal(simplificationStatus, interrupt);
 }
 
 
@@ -367,7 +368,7 @@ void SoPlexBase<R>::_preprocessAndSolveReal(bool applySimplifier, volatile bool*
 /// loads original problem into solver and solves again after it has been solved to infeasibility or unboundedness with preprocessing
 template <class R>
 void SoPlexBase<R>::_resolveWithoutPreprocessing(typename SPxSimplifier<R>::Result
-      simplificationStatus)
+      simplificationStatus, volatile bool* interrupt)
 {
    assert(!_isRealLPLoaded || _scaler != nullptr);
    assert(_simplifier != nullptr || _scaler != nullptr);
@@ -439,7 +440,7 @@ void SoPlexBase<R>::_resolveWithoutPreprocessing(typename SPxSimplifier<R>::Resu
    }
 
    // resolve the original problem
-   _preprocessAndSolveReal(false);
+   _preprocessAndSolveReal(false, interrupt);
    return;
 }
 
@@ -447,7 +448,7 @@ void SoPlexBase<R>::_resolveWithoutPreprocessing(typename SPxSimplifier<R>::Resu
 
 /// verify computed solution based on status and resolve if claimed primal or dual feasibility is not fulfilled
 template <class R>
-void SoPlexBase<R>::_verifySolutionReal()
+void SoPlexBase<R>::_verifySolutionReal(volatile bool* interrupt)
 {
    assert(_hasSolReal);
 
@@ -486,13 +487,13 @@ void SoPlexBase<R>::_verifySolutionReal()
          ++_unscaleCalls;
       }
 
-      _preprocessAndSolveReal(false);
+      _preprocessAndSolveReal(false, interrupt);
    }
 }
 
 /// verify computed solution based on status and resolve if claimed primal or dual feasibility is not fulfilled
 template <class R>
-void SoPlexBase<R>::_verifyObjLimitReal()
+void SoPlexBase<R>::_verifyObjLimitReal(volatile bool* interrupt)
 {
    SPX_MSG_INFO1(spxout, spxout << " --- verifying objective limit" << std::endl;)
 
@@ -531,13 +532,13 @@ void SoPlexBase<R>::_verifyObjLimitReal()
          ++_unscaleCalls;
       }
 
-      _preprocessAndSolveReal(false);
+      _preprocessAndSolveReal(false, interrupt);
    }
 }
 
 /// stores solution data from the solver, possibly after applying unscaling and unsimplifying
 template <class R>
-void SoPlexBase<R>::_storeSolutionReal(bool verify)
+void SoPlexBase<R>::_storeSolutionReal(bool verify, volatile bool* interrupt)
 {
    // prepare storage for basis (enough to fit the original basis)
    _basisStatusRows.reSize(numRows());
@@ -664,7 +665,7 @@ void SoPlexBase<R>::_storeSolutionReal(bool verify)
          SPX_MSG_INFO1(spxout, spxout << "Caught exception <" << E.what() <<
                        "> during unsimplification. Resolving without simplifier and scaler.\n");
          _hasBasis = false;
-         _preprocessAndSolveReal(false);
+         _preprocessAndSolveReal(false, interrupt);
          return;
       }
 
@@ -719,9 +720,9 @@ void SoPlexBase<R>::_storeSolutionReal(bool verify)
    if(verify)
    {
       if(_status == SPxSolverBase<R>::ABORT_VALUE)
-         _verifyObjLimitReal();
+         _verifyObjLimitReal(interrupt);
       else
-         _verifySolutionReal();
+         _verifySolutionReal(interrupt);
    }
 
    assert(_solver.nCols() == this->numCols());
@@ -731,7 +732,7 @@ void SoPlexBase<R>::_storeSolutionReal(bool verify)
 
 
 template <class R>
-void SoPlexBase<R>::_storeSolutionRealFromPresol()
+void SoPlexBase<R>::_storeSolutionRealFromPresol(volatile bool* interrupt)
 {
    assert(_simplifier);
    assert(_simplifier->result() == SPxSimplifier<R>::VANISHED);
@@ -766,7 +767,7 @@ void SoPlexBase<R>::_storeSolutionRealFromPresol()
    {
       SPX_MSG_INFO1(spxout, spxout << "Caught exception <" << E.what() <<
                     "> during unsimplification. Resolving without simplifier and scaler.\n");
-      _preprocessAndSolveReal(false);
+      _preprocessAndSolveReal(false, interrupt);
       return;
    }
 
@@ -798,7 +799,7 @@ void SoPlexBase<R>::_storeSolutionRealFromPresol()
    _solver.setBasisStatus(SPxBasisBase<R>::OPTIMAL);
 
    // check solution for violations and solve again if necessary
-   _verifySolutionReal();
+   _verifySolutionReal(interrupt);
 }
 
 
